@@ -1,5 +1,6 @@
 (* Conversions between OCaml values and the extracted Coq datatypes, and canonical printing.
    Trusted glue: no model logic lives here. *)
+type ostring = string
 open Model
 
 let rec pos_of_int (n : int) : positive =
@@ -18,7 +19,7 @@ let int_of_z (x : z) : int =
   match x with Z0 -> 0 | Zpos p -> int_of_pos p | Zneg p -> - (int_of_pos p)
 
 (* arbitrary size: hexadecimal, most significant digit first *)
-let hex_of_pos (p : positive) : string =
+let hex_of_pos (p : positive) : ostring =
   (* collect bits least significant first *)
   let rec bits p acc = match p with
     | XH -> 1 :: acc
@@ -38,10 +39,10 @@ let hex_of_pos (p : positive) : string =
     | _ -> assert false in
   go l; Buffer.contents buf
 
-let hex_of_z (x : z) : string =
+let hex_of_z (x : z) : ostring =
   match x with Z0 -> "0" | Zpos p -> hex_of_pos p | Zneg p -> "-" ^ hex_of_pos p
 
-let z_of_hex (s : string) : z =
+let z_of_hex (s : ostring) : z =
   let neg, s = if String.length s > 0 && s.[0] = '-' then true, String.sub s 1 (String.length s - 1) else false, s in
   let sixteen = z_of_int 16 in
   let acc = ref Z0 in
@@ -54,7 +55,7 @@ let z_of_hex (s : string) : z =
       acc := Z.add (Z.mul !acc sixteen) (z_of_int d)) s;
   if neg then Z.opp !acc else !acc
 
-let z_of_dec (s : string) : z =
+let z_of_dec (s : ostring) : z =
   let neg, s = if String.length s > 0 && s.[0] = '-' then true, String.sub s 1 (String.length s - 1) else false, s in
   let ten = z_of_int 10 in
   let acc = ref Z0 in
@@ -62,15 +63,15 @@ let z_of_dec (s : string) : z =
   if neg then Z.opp !acc else !acc
 
 (* bytes <-> hex text; "-" encodes the empty string so that fields are never empty *)
-let bytes_of_hex (s : string) : z list =
+let bytes_of_hex (s : ostring) : z list =
   if s = "-" then [] else
   let n = String.length s / 2 in
   List.init n (fun i -> z_of_int (int_of_string ("0x" ^ String.sub s (2 * i) 2)))
 
-let hex_of_bytes (l : z list) : string =
+let hex_of_bytes (l : z list) : ostring =
   if l = [] then "-" else
   String.concat "" (List.map (fun b -> Printf.sprintf "%02x" (int_of_z b)) l)
 
-let string_of_zint (x : z) : string = string_of_int (int_of_z x)
+let string_of_zint (x : z) : ostring = string_of_int (int_of_z x)
 
-let split_tab (s : string) : string list = String.split_on_char '\t' s
+let split_tab (s : ostring) : ostring list = String.split_on_char '\t' s
